@@ -1,14 +1,17 @@
 (* C42 — model of dds/src/std_runtime/executor.rs block_timeout / block_on
-   (definitions only).
+   (definitions only).  Follows the code after fixes 7de0553 and 8591c31.
 
    block_timeout(duration, future): a loop on one thread:
        poll; Ready(t) -> return Ok(t)
-             Pending  -> if duration >= now - start then recv_timeout(duration - (now - start))
-                                                       Ok -> loop, Err -> return Timeout
-                         else return Timeout
-   The waker does try_send(()) into a sync_channel(1) (fix 7de0553): b_tok = the
-   buffer holds a token; a wake on a full buffer is dropped and never blocks the
-   waking thread (one buffered token already guarantees the next recv returns).
+             Pending  ->
+               woken = if duration >= now - start  then recv_timeout(duration - (now - start)).is_ok()
+                       else                             try_recv().is_ok()
+               if !woken                 -> return Timeout
+               if now - start > duration -> one LAST poll: Ready(t) -> Ok(t), Pending -> Timeout
+               else loop
+   The waker does try_send(()) into a sync_channel(1): b_tok = the buffer holds a
+   token; a wake on a full buffer is dropped and never blocks the waking thread
+   (one buffered token already guarantees the next recv returns).
    The future is the environment.  It is taken to be well behaved: it has one
    completion event (BComplete: from then on poll returns Ready(value)) and the
    completion wakes the waker; it may also wake without completing (BSpurious:
@@ -27,9 +30,9 @@ Inductive bpc : Type :=
 | BPolling                         (* about to poll the future *)
 | BChecking                        (* poll returned Pending; about to read the clock *)
 | BWaiting (lim : Z)               (* in recv_timeout; lim = absolute time limit *)
-| BDone (r : bres) (unseen : bool) (at_ : Z).
-    (* returned r at clock at_; unseen = a wake token was in the channel when
-       Timeout was returned without looking at the channel (the else branch) *)
+| BWoken                           (* woken = true; about to read the clock again *)
+| BLastPoll                        (* the duration is over: about to poll one last time *)
+| BDone (r : bres) (at_ : Z).      (* returned r at clock at_ *)
 
 Record bst : Type := mkB {
   b_clock : Z;
@@ -50,10 +53,11 @@ Inductive bop : Type :=
 | BSpurious          (* the future makes progress and wakes, without completing *)
 | BSelfWake          (* the future wakes its waker from INSIDE poll (yield pattern): the try_send is
                         done by the polling thread itself *)
-| BPoll
-| BCheck
+| BPoll              (* poll (in the loop, or the last one) *)
+| BCheck             (* first clock read: recv_timeout(remaining) or try_recv *)
 | BRecvOk
-| BRecvTimeout.
+| BRecvTimeout
+| BCheck2.           (* second clock read, after having been woken *)
 
 (* try_send: fills the one-slot buffer, or is dropped when it is already full *)
 Definition bwake (s : bst) : bst :=
@@ -61,6 +65,9 @@ Definition bwake (s : bst) : bst :=
 
 Definition set_bpc (s : bst) (p : bpc) : bst :=
   mkB (b_clock s) (b_start s) (b_dur s) (b_val s) (b_tok s) p (b_done s) (b_polls s).
+(* a token is taken out of the channel *)
+Definition take_tok (s : bst) (p : bpc) : bst :=
+  mkB (b_clock s) (b_start s) (b_dur s) (b_val s) false p (b_done s) (b_polls s).
 
 Definition bstep (s : bst) (o : bop) : bst :=
   match o with
@@ -75,17 +82,22 @@ Definition bstep (s : bst) (o : bop) : bst :=
   | BSpurious => bwake s
   | BSelfWake =>
       match b_pc s with
-      | BPolling => bwake s
+      | BPolling | BLastPoll => bwake s
       | _ => s
       end
   | BPoll =>
+      let s' := mkB (b_clock s) (b_start s) (b_dur s) (b_val s) (b_tok s)
+                    (b_pc s) (b_done s) (b_polls s + 1) in
       match b_pc s with
       | BPolling =>
-          let s' := mkB (b_clock s) (b_start s) (b_dur s) (b_val s) (b_tok s)
-                        (b_pc s) (b_done s) (b_polls s + 1) in
           match b_done s with
-          | Some _ => set_bpc s' (BDone (BOk (b_val s)) false (b_clock s))
+          | Some _ => set_bpc s' (BDone (BOk (b_val s)) (b_clock s))
           | None => set_bpc s' BChecking
+          end
+      | BLastPoll =>
+          match b_done s with
+          | Some _ => set_bpc s' (BDone (BOk (b_val s)) (b_clock s))
+          | None => set_bpc s' (BDone BTimeout (b_clock s))
           end
       | _ => s
       end
@@ -95,23 +107,26 @@ Definition bstep (s : bst) (o : bop) : bst :=
           (* duration.checked_sub(now - start) *)
           if b_clock s - b_start s <=? b_dur s
           then set_bpc s (BWaiting (b_start s + b_dur s))
-          else set_bpc s (BDone BTimeout (b_tok s) (b_clock s))
+          else if b_tok s then take_tok s BWoken            (* try_recv = Ok *)
+          else set_bpc s (BDone BTimeout (b_clock s))       (* try_recv = Err *)
       | _ => s
       end
   | BRecvOk =>
       match b_pc s with
-      | BWaiting _ =>
-          if b_tok s
-          then mkB (b_clock s) (b_start s) (b_dur s) (b_val s) false BPolling (b_done s) (b_polls s)
-          else s
+      | BWaiting _ => if b_tok s then take_tok s BWoken else s
       | _ => s
       end
   | BRecvTimeout =>
       match b_pc s with
       | BWaiting lim =>
           if negb (b_tok s) && (lim <=? b_clock s)
-          then set_bpc s (BDone BTimeout false (b_clock s))
+          then set_bpc s (BDone BTimeout (b_clock s))
           else s
+      | _ => s
+      end
+  | BCheck2 =>
+      match b_pc s with
+      | BWoken => if b_dur s <? b_clock s - b_start s then set_bpc s BLastPoll else set_bpc s BPolling
       | _ => s
       end
   end.
